@@ -23,6 +23,7 @@ mod rpc;
 mod tiered;
 mod c13;
 mod c19;
+mod c20c;
 mod common;
 mod crash;
 mod hist;
@@ -92,7 +93,13 @@ fn main() {
             "C04" => c04::replay("C04", &plan, &mut sum),
             "C06" => c06::replay("C06", &plan, &mut sum),
             "C07" => c06::replay("C07", &plan, &mut sum),
-            "C20" => c04::replay("C20", &plan, &mut sum),
+            "C20" => {
+                if plan.get("check").and_then(|c| c.as_str()) == Some("C20c") {
+                    c20c::replay(&plan, &mut sum)
+                } else {
+                    c04::replay("C20", &plan, &mut sum)
+                }
+            }
             _ => Err(format!("unknown check {}", check)),
         };
         if let Err(e) = r {
@@ -117,7 +124,13 @@ fn main() {
             "C04" => c04::run_batch("C04", seed, start, count, &tier, budget_ms, &mut sum),
             "C06" => c06::run_batch("C06", seed, start, count, &tier, budget_ms, &mut sum),
             "C07" => c06::run_batch("C07", seed, start, count, &tier, budget_ms, &mut sum),
-            "C20" => c04::run_batch("C20", seed, start, count, &tier, budget_ms, &mut sum),
+            "C20" => {
+                // three quarters of the budget for the sequential histories, one quarter for the concurrent-insert rows
+                let seq_budget = if budget_ms > 0 { budget_ms * 3 / 4 } else { 0 };
+                c04::run_batch("C20", seed, start, count, &tier, seq_budget, &mut sum);
+                let conc_budget = if budget_ms > 0 { budget_ms - seq_budget } else { 0 };
+                c20c::run_batch(seed, start, if budget_ms > 0 { count } else { (count / 4).max(1) }, conc_budget, &mut sum);
+            }
             _ => {
                 eprintln!("unknown check {}", check);
                 status = 2;
